@@ -86,14 +86,17 @@ type ContractSet struct {
 	Ghosts   map[string]string // name -> type
 	Lemmas   []*Lemma
 	TypeInvs map[string]*TypeInv
+	// Immutable: struct / map types (by typeKey) whose objects may only be written while they are
+	// fresh (allocated by the writing function), except in the listed functions
+	Immutable map[string]*TypeInv
 	Order    []string
 }
 
 func newContractSet() *ContractSet {
-	return &ContractSet{Funcs: map[string]*Contract{}, Preds: map[string]*Pred{}, Ghosts: map[string]string{}, TypeInvs: map[string]*TypeInv{}}
+	return &ContractSet{Funcs: map[string]*Contract{}, Preds: map[string]*Pred{}, Ghosts: map[string]string{}, TypeInvs: map[string]*TypeInv{}, Immutable: map[string]*TypeInv{}}
 }
 
-var clauseRe = regexp.MustCompile(`^(typeinv|dispatch|step|stable|preserves|requires|ensures|invariant|decreases|atcall|track|modifies|opt|loop|axiom|pred|ghost|func|lemma)\b(\[[A-Za-z0-9, ]*\])?\s*(.*)$`)
+var clauseRe = regexp.MustCompile(`^(immutable|typeinv|dispatch|step|stable|preserves|requires|ensures|invariant|decreases|atcall|track|modifies|opt|loop|axiom|pred|ghost|func|lemma)\b(\[[A-Za-z0-9, ]*\])?\s*(.*)$`)
 
 func (cs *ContractSet) parseFile(path string, trusted bool) error {
 	data, err := os.ReadFile(path)
@@ -199,6 +202,19 @@ func (cs *ContractSet) parseFile(path string, trusted bool) error {
 				}
 				cur.Opts[k] = v
 			}
+		case "immutable":
+			// immutable <type key> [except f1, f2, ...]
+			tk := rest
+			ex := map[string]bool{}
+			if i := strings.Index(rest, " except "); i >= 0 {
+				tk = rest[:i]
+				for _, e := range strings.Split(rest[i+8:], ",") {
+					ex[strings.TrimSpace(e)] = true
+				}
+			}
+			tk = strings.TrimSpace(tk)
+			cs.Immutable[tk] = &TypeInv{Type: tk, Except: ex}
+			cur = nil
 		case "typeinv":
 			// typeinv <TypeName> <pred> [except f1, f2, ...]
 			f := strings.Fields(rest)
